@@ -12,7 +12,7 @@ def cfg(nq, nt, preds, rule, assume=None, tb=None):
             "assumptions": COMMON_ASSUME + (assume or []), "trusted_base": tb or []}
 
 # properties whose theorems rest on the closed-form formulas of kinematics_impl.rs also re-check the source tie
-SRC_TIED = ["C01", "C02", "C03", "C04", "C05", "C06", "C07", "C08", "C09", "C15", "C16", "C17", "C18"]
+SRC_TIED = ["C01", "C02", "C03", "C04", "C05", "C06", "C07", "C08", "C09", "C10", "C11", "C14", "C15", "C16", "C17", "C18"]
 
 PROPS = {
     "C03": cfg(20000, 1000000, ["C03.", "C09.shape_forward"],
